@@ -543,6 +543,28 @@ def run_task(task):
     res = TaskResult()
     kind = task["kind"]
     try:
+        if kind == "opt":
+            from vlib import optrun
+            xs = [bytes((i * 13 + k) % 256 for i in range(n)) for n in (0, 1, 2, 3, 6, 7, 64, 255) for k in (0, 3, 128)]
+            jobs = []
+            for x in xs:
+                for f in ("interleave", "deinterleave", "flip_msb"):
+                    jobs.append({"fn": f, "arg": x.hex()})
+                for m in (0, 1, 3, 7, 256, -2):
+                    jobs.append({"fn": "swap_multiples", "arg": x.hex(), "m": m})
+            model = {"interleave": m_interleave, "deinterleave": m_deinterleave, "flip_msb": m_flip}
+            for flag in ("-O", "-OO"):
+                got = optrun.run(jobs, flag)
+                for job, g in zip(jobs, got):
+                    x = bytes.fromhex(job["arg"])
+                    if job["fn"] == "swap_multiples":
+                        exp = "raised ValueError" if job["m"] < 0 else (x if job["m"] == 0 else m_swap(x, job["m"])).hex()
+                    else:
+                        exp = model[job["fn"]](x).hex()
+                    if g != exp:
+                        raise Violation("holds_under_optimized_interpreter", {"op": "opt", "job": job, "flag": flag}, exp, g)
+                res.extra["optimized_interpreter_calls"] = res.extra.get("optimized_interpreter_calls", 0) + len(jobs)
+            return res
         if kind == "long":
             for L in (255, 256, 257, 2049, 64008, 64009, 65536, 65537, 70001):
                 x = bytes((i * 13 + (i >> 8) + L) % 256 for i in range(L))
@@ -641,7 +663,7 @@ def plan(tier, seed):
     for m in PAT_MULTIPLES:
         tasks.append({"kind": "swap_pat", "m": m, "n_lo": PAT_MAXN - 1, "n_hi": PAT_MAXN - 1})
         tasks.append({"kind": "swap_pat", "m": m, "n_lo": 0, "n_hi": PAT_MAXN - 2})
-    tasks += [{"kind": "vectors"}, {"kind": "flip"}, {"kind": "long"}]
+    tasks += [{"kind": "vectors"}, {"kind": "flip"}, {"kind": "long"}, {"kind": "opt"}]
     return tasks
 
 
@@ -663,4 +685,16 @@ def finalize(merged, tier):
 
 
 def replay(case):
+    if case.get("op") == "opt":
+        from vlib import optrun
+        job = case["job"]
+        x = bytes.fromhex(job["arg"])
+        g = optrun.run([job], case["flag"])[0]
+        if job["fn"] == "swap_multiples":
+            exp = "raised ValueError" if job["m"] < 0 else (x if job["m"] == 0 else m_swap(x, job["m"])).hex()
+        else:
+            exp = {"interleave": m_interleave, "deinterleave": m_deinterleave, "flip_msb": m_flip}[job["fn"]](x).hex()
+        if g != exp:
+            raise Violation("holds_under_optimized_interpreter", case, exp, g)
+        return
     _dispatch(loader.core(), case)
